@@ -97,6 +97,43 @@ def self_stores(body):
             else:
                 continue
         out.append((bi, dest, mode, t["args"][1] if len(t["args"]) > 1 else None, t["span"], t))
+    # mutations of a field of self inside a closure run by `iter.for_each(|..| self.field.insert(..))`
+    from ..mirutil import sweep_closures, defuse as _du
+    for (cb, pb, pbi) in sweep_closures(body.prog, body):
+        if pb.did != body.did:
+            continue
+        # the closure value: operand 1 of the for_each call
+        rcl = op_root(body, body.blocks[pbi]["term"]["args"][1])
+        dcl = _du(body).single_def(rcl["l"]) if rcl is not None else None
+        if not (dcl and dcl[0] == "stmt" and dcl[3]["rv"].get("agg") == "closure"):
+            continue
+        upvars = dcl[3]["rv"]["ops"]
+        for ci, t in cb.calls():
+            if not t["args"]:
+                continue
+            r = deep_root(cb, t["args"][0])
+            if r is None or r["l"] != 1:
+                continue
+            fl = [e for e in r.get("p", []) if e["k"] == "field"]
+            if not fl or fl[0]["i"] >= len(upvars):
+                continue
+            up = upvars[fl[0]["i"]]
+            pr = deep_root(body, up) if op_place(up) is not None else None
+            if pr is None or pr["l"] != 1:
+                continue
+            dest = _names(pr)
+            rest = [str(e.get("n", e["i"])) for e in fl[1:]]
+            if rest:
+                dest = ".".join([dest] + rest) if dest else ".".join(rest)
+            if not dest:
+                continue
+            mode = None
+            if callee_is(t, "vec::Vec::push", "vec::Vec::extend_from_slice", "vec::Vec::append"):
+                mode = "append"
+            elif callee_is(t, "collections::HashMap::insert"):
+                mode = "insert"
+            if mode is not None:
+                out.append((pbi, dest, mode, None, t["span"], t))
     # calls whose destination is a field
     for bi, t in body.calls():
         if t["dest"].get("p"):
@@ -197,6 +234,19 @@ def _check_merge(cx, fn, alias, kind):
                 cx.check("hook-entry:%s:%s" % (kind, dest), True, site_of(fn, span=span), "per-event hooks are inserted one by one", how="table")
                 continue
             cx.check("source-unknown:%s:%s" % (kind, dest), False, site_of(fn, span=span), "the value stored into %s does not come from a field of the merged source" % dest)
+            continue
+        if kind == "args" and sname in ARGS_FLAGS and ARGS_FLAGS[sname] == (dest, 1) and dest in NOT_IN_FILE and mode == "assign":
+            # `self.daemonize = args.daemon`: a switch copied unconditionally is equivalent to "set when given" when
+            # nothing but the default (false) can have set the field before: no file entry, default false
+            dflt = [b2 for b2 in prog.bodies if b2.path.endswith("config::Config as std::default::Default>::default")]
+            dval = None
+            for b2 in dflt:
+                for (b3, bi3, s3) in aggregates(prog, "config::Config"):
+                    if b3.did == b2.did and dest in s3["rv"]["fields"]:
+                        dval = op_const(s3["rv"]["ops"][s3["rv"]["fields"].index(dest)])
+            cx.check("flag:%s" % dest, dval == 0, site_of(fn, span=span),
+                     "switch --%s is copied into %s, which only the default (false, found %s) can have set before (no file entry)" % (sname, dest, dval))
+            covered.add(dest)
             continue
         want = alias.get(sname, sname)
         cx.check("wiring:%s:%s" % (kind, dest), want == dest, site_of(fn, span=span),
